@@ -582,6 +582,15 @@ def snapshot(prs):
                 d["chart"] = c
             if getattr(sh, "has_table", False):
                 d["table"] = [[c.text for c in row.cells] for row in sh.table.rows]
+            if sh.__class__.__name__ != "GroupShape" and hasattr(sh, "click_action"):
+                try:
+                    ca = sh.click_action
+                    tgt = ca.target_slide
+                    d["action"] = (str(ca.action), ca.hyperlink.address, tgt.slide_id if tgt is not None else None)
+                except Exception as e:  # a jump to a slide no longer in the list etc.
+                    d["action"] = "raises:" + type(e).__name__
+            if getattr(sh, "has_text_frame", False) and sh._element.find("{%s}txBody" % P) is not None:
+                d["links"] = [r.hyperlink.address for p_ in sh.text_frame.paragraphs for r in p_.runs if r.hyperlink.address is not None]
             s["shapes"].append(d)
         if slide.has_notes_slide:
             tf = slide.notes_slide.notes_text_frame
